@@ -16,7 +16,8 @@ RULE = ('histories of grid edits as JSON op lists whose arguments are indices re
         'random: Hypothesis op lists up to 60 long on grids built from geometries (<= 200 blocks). After every '
         'operation the structural invariant is evaluated and the grid compared with an abstract reference model '
         '(ordered names, oriented pairs, rock names). Non-trivial = history with >= 2 different operation kinds '
-        'including a rename, reorder or delete; distinct = distinct history JSON.')
+        'including a rename, reorder or delete; distinct = distinct history JSON.'
+        " Also: MINC with clashing generated names (refusal ends the history, acceptance is judged), demote with repeated names, rename targets in the simulator's printed form ('qq1 5').")
 ASSUMPTIONS = ['preconditions from the code/docs are honoured by construction: new block names are unused, connections join two '
                'present distinct blocks not already connected in either orientation, deleted rock types are unused, rename '
                'targets do not collide with an unrenamed block, MINC only when the default matrix names are free',
@@ -204,8 +205,20 @@ def apply_op(R, g, m, op):
         if not m.rocks: return g, None
         old = op['old'] if op.get('old') is not None else m.rocks[op['i'] % len(m.rocks)]
         new = op.get('new') or 'n%03d' % (op.get('j', 0) % 5)
-        if old not in m.rocks or new in m.rocks: return g, None
         if old in m.redefined: return g, None       # blocks still hold the replaced object of that name: renaming is the caller's problem
+        if old not in m.rocks or (new in m.rocks and new != old):
+            # documented refusal ("if that rocktype does not exist, or the target name has already been used, an exception
+            # is raised"): the refused call is not an edit - the grid must be what it was (judged against the unchanged model)
+            R.label('rename_rocktype:refused')
+            try:
+                g.rename_rocktype(old, new)
+            except Exception as e:
+                if 'already exists' in str(e) or 'not found' in str(e): return g, 'rename_rocktype'
+                raise
+            R.fail('rename_rocktype:not-refused', 'rename_rocktype(%r, %r) went through although %s' % (
+                old, new, 'the source does not exist' if old not in m.rocks else 'the target name is in use'))
+            raise Aborted()
+        if new == old: return g, None
         g.rename_rocktype(old, new)
         m.rocks[m.rocks.index(old)] = new
         for b in m.blocks:
@@ -328,7 +341,14 @@ def apply_op(R, g, m, op):
             hosts = [b for b in m.blocks if b[3] > 0.75]
             if not hosts: return g, None
             h = hosts[op.get('i', 0) % len(hosts)]
-            res = g.embed(sub, t2grids.t2connection([g.block[h[1]], sub.blocklist[0]], 1, [0.1, 0.1], 1.0, 0.0))
+            hb, sb = g.block[h[1]], sub.blocklist[0]
+            if op.get('standin'):
+                # the caller's connection names the two blocks through equal-named stand-in objects (e.g. taken from a copy
+                # of the model): embed resolves them by name
+                R.label('embed:stand-in-blocks')
+                hb = t2grids.t2block(hb.name, hb.volume, hb.rocktype, centre=hb.centre)
+                sb = t2grids.t2block(sb.name, sb.volume, sb.rocktype, centre=sb.centre)
+            res = g.embed(sub, t2grids.t2connection([hb, sb], 1, [0.1, 0.1], 1.0, 0.0))
             if res is None:
                 R.fail('embed:refused', 'embed returned None for a host of volume %r and a 0.75 sub-grid' % h[3]); return g, None
             g = res
@@ -407,7 +427,7 @@ def alphabet(full):
     A.append({'op': 'demote_block', 'blocks': [0, 2]}); A.append({'op': 'demote_block', 'blocks': [1, 0, 1]})
     A.append({'op': 'clean_rocktypes'})
     A.append({'op': 'minc', 'vf': [0.1, 0.9]}); A.append({'op': 'minc', 'vf': [1, 2, 3], 'blocks': [0, 1]})
-    A.append({'op': 'plus'}); A.append({'op': 'plus', 'rock': 'r0'}); A.append({'op': 'embed', 'i': 0})
+    A.append({'op': 'plus'}); A.append({'op': 'plus', 'rock': 'r0'}); A.append({'op': 'embed', 'i': 0}); A.append({'op': 'embed', 'i': 0, 'standin': True})
     return A
 
 
@@ -444,7 +464,7 @@ def op_strategy():
         st.just({'op': 'clean_rocktypes'}),
         st.builds(lambda s, v, n: {'op': 'minc', 'blocks': s, 'vf': v, 'nfp': n}, small,
                   st.sampled_from([[0.1, 0.9], [1, 2, 3], [0.05, 0.2, 0.3, 0.45]]), st.sampled_from([1, 2, 3])),
-        st.just({'op': 'plus'}), st.builds(lambda a: {'op': 'embed', 'i': a}, i))
+        st.just({'op': 'plus'}), st.builds(lambda a, s: {'op': 'embed', 'i': a, 'standin': s}, i, st.booleans()))
 
 
 OPS = op_strategy()
